@@ -19,7 +19,7 @@ bounds = c03.bounds
 def plan(tier):
     items = []
     for (b, q) in dtc.PAIRS:
-        for (h, w) in dtc.grid(tier, 'pairs'):
+        for (h, w) in (dtc.grid(tier, 'biort') if tier == 'quick' else dtc.grid(tier, 'pairs')):     # quick: full [2..12]^2 (no reference calls needed)
             items.append({'biort': b, 'qshift': q, 'h': h, 'w': w, 'jcap': c03.jcap(tier)})
     if tier == 'thorough':
         for b in dtc.BIORTS:
